@@ -8,19 +8,44 @@ import (
 	"encoding/json"
 	"fmt"
 	"math"
+	"os"
 	"sort"
 	"strings"
 )
 
 // coqString renders a Go string as a Gallina string literal.  Generated
 // strings are printable ASCII; a double quote is doubled (Coq's escape).
+//
+// String literals are what Coq elaborates slowest (about 75us per character),
+// so every distinct string is defined once at the top of a cases file
+// (Definition s<k> : string := "...") and referred to by name.
 func coqString(s string) string {
+	if id, have := internIDs[s]; have {
+		return fmt.Sprintf("s%d", id)
+	}
 	for i := 0; i < len(s); i++ {
 		if s[i] < 32 || s[i] > 126 {
 			panic(fmt.Sprintf("non-printable string in generated case: %q", s))
 		}
 	}
-	return `"` + strings.ReplaceAll(s, `"`, `""`) + `"`
+	id := len(internList)
+	internIDs[s] = id
+	internList = append(internList, s)
+	return fmt.Sprintf("s%d", id)
+}
+
+var (
+	internIDs  = map[string]int{}
+	internList []string
+)
+
+// internDefs renders the definitions of all interned strings.
+func internDefs() string {
+	var sb strings.Builder
+	for id, s := range internList {
+		sb.WriteString(fmt.Sprintf("Definition s%d : string := \"%s\".\n", id, strings.ReplaceAll(s, `"`, `""`)))
+	}
+	return sb.String()
 }
 
 func coqZ(z int64) string {
@@ -180,5 +205,15 @@ func deepCopy(x interface{}, g *G) interface{} {
 		return acc
 	default:
 		return x
+	}
+}
+
+func loadJSON(path string, into interface{}) {
+	js, err := os.ReadFile(path)
+	if err != nil {
+		panic(err)
+	}
+	if err := json.Unmarshal(js, into); err != nil {
+		panic(err)
 	}
 }
